@@ -15,6 +15,9 @@ WORLD = {"modules": [{"name": "vw0", "future": False, "decls": [
     {"d": "dataclass", "n": "VwP", "fields": [{"n": "a", "t": {"k": "int"}}, {"n": "b", "t": {"k": "str"}, "default": "x"}], "flags": {}},
     {"d": "enum", "n": "VwE", "base": "Enum", "members": [["M0", 1], ["M1", "a"], ["M2", "2020-01-01"]]},
     {"d": "dataclass", "n": "VwQ", "fields": [{"n": "a", "t": {"k": "str"}}, {"n": "c", "t": {"k": "dt"}, "default": None}], "flags": {"frozen": True}},
+    # members that are optional in their own right (typing does not flatten these into the union)
+    {"d": "alias", "n": "VwMaybeInt", "t": {"k": "union", "sp": "pipe", "a": [{"k": "int"}, {"k": "none"}]}},
+    {"d": "newtype", "n": "VwMaybeFloat", "t": {"k": "union", "sp": "optional", "a": [{"k": "float"}, {"k": "none"}]}},
 ]}]}
 
 POOL = [
@@ -22,6 +25,7 @@ POOL = [
     {"k": "list", "a": {"k": "int"}}, {"k": "dict", "a": [{"k": "str"}, {"k": "int"}]},
     {"k": "ref", "m": "vw0", "n": "VwP"}, {"k": "ref", "m": "vw0", "n": "VwE"}, {"k": "lit", "v": [1, "a", True]},
     {"k": "bool"}, {"k": "ref", "m": "vw0", "n": "VwQ"}, {"k": "tuple", "a": [{"k": "int"}, {"k": "str"}]}, {"k": "td"}, {"k": "frac"},
+    {"k": "ref", "m": "vw0", "n": "VwMaybeInt"}, {"k": "ref", "m": "vw0", "n": "VwMaybeFloat"}, {"k": "lit", "v": [1, 2, None]},
 ]
 NONE = {"k": "none"}
 
@@ -29,7 +33,7 @@ NONE = {"k": "none"}
 def _view():
     v = gen.View()
     for d in WORLD["modules"][0]["decls"]:
-        v.add("vw0", d, "enum" if d["d"] == "enum" else "struct")
+        v.add("vw0", d, {"enum": "enum", "alias": "alias", "newtype": "newtype"}.get(d["d"], "struct"))
     return v
 
 
@@ -41,8 +45,8 @@ class C08(PropBase):
     THOROUGH_BUDGET_S = 720
     FAULT_KINDS = FAULTS
     RULE = (
-        "A case is one unmarshal or marshal through a union of 2-4 members drawn from a 17-type pool (int, str, float, bool, Decimal, "
-        "Fraction, date, datetime, timedelta, UUID, list[int], dict[str,int], tuple[int,str], two dataclasses, an Enum, a Literal) in a "
+        "A case is one unmarshal or marshal through a union of 2-4 members drawn from a 20-type pool (int, str, float, bool, Decimal, "
+        "Fraction, date, datetime, timedelta, UUID, list[int], dict[str,int], tuple[int,str], two dataclasses, an Enum, a Literal, and three members that are optional themselves: an alias of int | None, a NewType over Optional[float], Literal[1, 2, None]) in a "
         "seeded member order and spelling (typing.Union / Optional / X|Y), None at a seeded position, on a member wire form or a junk "
         "input. Expected = what the first member routine in declared order that accepts the input returns, each obtained "
         "independently; None for None when None is a member; ValueError iff every member rejects. Non-trivial: another order of the "
